@@ -11,11 +11,11 @@ ALL = [f'C{i:02d}' for i in range(1, 21)]
 CHECKS = {
     'C01': dict(
         level='other', technique='abstract interpretation of kernel ASTs to exact algebraic normal forms; partial evaluation of graph tables',
-        text='Static: every elastic kernel is reduced to an exact power-product normal form and compared with the documented formula; every graph entry is one-step sound against the documented definition of its target (so all routes agree by induction); inverse pairs compose to the identity. The rounding bound is decided as an operation-discipline rule (no add/sub, bounded op count, no narrowing cast) and, for single precision, by a magnitude rule over the whole quantified box 1e-9..1e9 (SI) x unit grid: whenever the exact result is a normal float32, no power-product intermediate overflows or drops below 7e-41 (exact: log-linear forms, vertex enumeration of box x result slab).',
+        text='Static: every elastic kernel is reduced to an exact power-product normal form and compared with the documented formula; every graph entry is one-step sound against the documented definition of its target (so all routes agree by induction); inverse pairs compose to the identity. The rounding bound is decided as an operation-discipline rule (no add/sub, bounded op count, no narrowing cast) and, for single precision, by a magnitude rule over the whole quantified box 1e-9..1e9 (SI) x unit grid: whenever the exact result is a normal float32, no power-product intermediate overflows or drops below 7e-41 (exact: log-linear forms, vertex enumeration of box x result slab). Results do not depend on call history: two-call histories of the kernels are interpreted in one world (module-level tables, functools caches and rebound globals persist between the calls; other units, other precision, another kernel first) and the second call returns what it returns in a fresh interpreter - a memo table is no violation, a memo table keyed by less than its entries depend on is.',
         note='trusts sa/scipp_model.py (semantics of ~70 scipp names), spec/formulas.py, positivity of physical quantities under sqrt; scipp.transform_coords not analysed', ref='3 C01'),
     'C05': dict(
         level='other', technique='abstract interpretation to rational-function normal forms; guard-shape rule on where(cond, NaN, value); interval analysis of log-magnitudes of float32 intermediates',
-        text='Static: the value arm of both inelastic kernels equals the documented formula; substituting the physical arrival time gives Ei-Ef identically; the NaN guard is the non-strict comparison on the same dt whose square is the only divisor; arms agree in unit/dtype on every path; graph factories wire the right kernel; magnitude-interval rule (sa/magnitude.py): for Ei/Ef in 1e-3..1e4 meV given in meV/eV/J, lengths 0.1..1e3 m in angstrom..km and tof in ns..s no single-precision intermediate leaves the normal range of float32: power products exactly, sums and what is computed from them by forward interval arithmetic in which a non-zero difference of floats is at least eps/4 of the larger lower bound (found and fixed F14).',
+        text='Static: the value arm of both inelastic kernels equals the documented formula; substituting the physical arrival time gives Ei-Ef identically; the NaN guard is the non-strict comparison on the same dt whose square is the only divisor; arms agree in unit/dtype on every path; graph factories wire the right kernel; magnitude-interval rule (sa/magnitude.py): for Ei/Ef in 1e-3..1e4 meV given in meV/eV/J, lengths 0.1..1e3 m in angstrom..km and tof in ns..s no single-precision intermediate leaves the normal range of float32: power products exactly, sums and what is computed from them by forward interval arithmetic in which a non-zero difference of floats is at least eps/4 of the larger lower bound (found and fixed F14). Results do not depend on call history: two-call histories of the kernels are interpreted in one world (module-level tables, functools caches and rebound globals persist between the calls; other units, other precision, another kernel first) and the second call returns what it returns in a fresh interpreter - a memo table is no violation, a memo table keyed by less than its entries depend on is.',
         note='trusts scipp model table and the normal form; the magnitude rule bounds power products only (sums are not bounded)', ref='3 C05'),
     'C07': dict(
         level='proof', technique='abstract interpretation over unit and dtype domains; exhaustive dtype grid by case split',
@@ -38,7 +38,7 @@ CHECKS.update({
         note='per-event application and preservation of weights/masks/order are scipp.transform_coords (not analysed)', ref='3 C06'),
     'C08': dict(
         level='other', technique='abstract interpretation to linear forms over vector atoms and non-commutative matrix words',
-        text='Static: Q components are the fields of (2pi/lambda)(e_i-e_f); pack/unpack are inverse order-preserving permutations; hkl=inv(R UB)Q/(2pi) so 2pi R UB hkl reduces to Q by word cancellation; UB=U B; the kernels are total (no raising path for well-typed inputs, R6) and compute on unit-carrying variables, not on bare numbers taken out of their operands (R7). The Q / hkl kernels keep no state between calls (no module-level write, no memoised result handed out).',
+        text='Static: Q components are the fields of (2pi/lambda)(e_i-e_f); pack/unpack are inverse order-preserving permutations; hkl=inv(R UB)Q/(2pi) so 2pi R UB hkl reduces to Q by word cancellation; UB=U B; the kernels are total (no raising path for well-typed inputs, R6) and compute on unit-carrying variables, not on bare numbers taken out of their operands (R7). The Q / hkl kernels answer from their arguments alone: two-call histories interpreted in one world (module-level tables, functools caches and rebound globals persist) give the second call the result of a fresh interpreter; no memoised result is handed out.',
         note='conditioning (accuracy for ill-conditioned B) is runtime and not decided', ref='3 C08'),
 })
 
@@ -49,7 +49,7 @@ CHECKS.update({
         note='trusts the three-line model of scipp.transform_coords and spec/convert_spec.py; values follow from the one-step soundness rules of C01/C03/C05', ref='3 C02'),
     'C09': dict(
         level='other', technique='interprocedural effect summaries (who-may-mutate, returns-alias-of) to a fixpoint over the call graph; object-identity interpretation of kernels',
-        text='Static: no public function of the conversion/chopper/tof/peaks/absorption/io/atoms modules writes to an object reachable from an argument or to module-level state (frozen list of documented mutators excepted), with copy=False conversions counted as aliases; no module table or memoised object is handed out, also not inside the fields or elements of a fresh record; next() counts as a write to the iterator it advances (found and fixed F15: CIF.save consumed the id generator of the builder); copy()/with_*() share no container with the original; cached lookups expose no mutable state except through copying accessors.',
+        text='Static: no public function of the conversion/chopper/tof/peaks/absorption/io/atoms modules writes to an object reachable from an argument (frozen list of documented mutators excepted), with copy=False conversions counted as aliases; no module table or memoised object (functools cache or a memo table kept by hand) is handed out, also not inside the fields or elements of a fresh record; next() counts as a write to the iterator it advances (found and fixed F15: CIF.save consumed the id generator of the builder); copy()/with_*() share no container with the original; cached lookups expose no mutable state except through copying accessors.',
         note='trusts the tables of mutating/aliasing/copying library calls in sa/effects.py; the heap abstraction is field-insensitive beyond one access path (over-approximate for mutation)', ref='3 C09'),
 })
 
@@ -148,7 +148,7 @@ CHECKS.update({
         note='optimiser outcomes are not decided', ref='8'),
     'C18': dict(
         level='other', technique='abstract interpretation (rotation vector, geometry kernels, transmission fraction); witness-guided interpretation with recording stubs (scaling/rotation/translation of a symbolic rule, transmission map); constant folding of the reference rules with numpy; effect summaries incl. memoising wrappers',
-        text='Static: the rotation from the z axis to the cylinder axis uses an angle ranging over [0, pi]; literal disk rules and the folded product rules of every deterministic kind have positive weights summing to the unit-cylinder volume, nodes inside, exact low-degree moments, and are the same on a second request; points = R (x r, y r, z h/2) + centre and weights = w r^2 h/2 as exact terms; transmission = sum w exp(-mu (L_in+L_out))/volume with L_in along -beam from every point and L_out along the unit vector to the detector; beam_intersection is the composition of the interval/slab/cylinder formulas, which equal their reference normal forms; no module-level state is written.',
+        text='Static: the rotation from the z axis to the cylinder axis uses an angle ranging over [0, pi]; literal disk rules and the folded product rules of every deterministic kind have positive weights summing to the unit-cylinder volume, nodes inside, exact low-degree moments, and are the same on a second request; points = R (x r, y r, z h/2) + centre and weights = w r^2 h/2 as exact terms; transmission = sum w exp(-mu (L_in+L_out))/volume with L_in along -beam from every point and L_out along the unit vector to the detector; beam_intersection is the composition of the interval/slab/cylinder formulas, which equal their reference normal forms; quadrature rules do not depend on call history (two-request histories of the rule selection in one interpreter, incl. requests whose axial rules have the same length but different families, with the first result overwritten by its caller), no memoised array is handed out, the transmission code writes no module-level state of its own.',
         note='accuracy of the quadrature on the integrand and degenerate (tangent/parallel) rays are runtime numerics, not decided', ref='8'),
     'C19': dict(
         level='other', technique='abstract interpretation of the plateau and in-phase code with symbolic tokens for group/bins reductions and a record of coordinate stores; effect summaries',
